@@ -9,6 +9,7 @@ import (
 	"os"
 	"os/exec"
 	"path/filepath"
+	"runtime/pprof"
 	"sort"
 	"strconv"
 	"strings"
@@ -85,8 +86,14 @@ func main() {
 		replayP  = flag.String("replay", "", "replay a stored counterexample directory natively and exit")
 		noEvid   = flag.Bool("no-evidence", false, "do not write the evidence file")
 		verbose  = flag.Bool("v", false, "verbose")
+		cpuprof  = flag.String("cpuprofile", "", "write cpu profile")
 	)
 	flag.Parse()
+	if *cpuprof != "" {
+		f, _ := os.Create(*cpuprof)
+		pprof.StartCPUProfile(f)
+		defer pprof.StopCPUProfile()
+	}
 	if *replayP != "" {
 		ok, out := runReplayDir(*repoDir, *replayP)
 		fmt.Print(out)
@@ -383,6 +390,7 @@ func main() {
 	}
 	fmt.Fprintf(os.Stderr, "%s %s: paths=%d steps=%d obligations=%d(+%d) queries(unsat/sat/unknown)=%d/%d/%d solver=%.1fs replays=%d/%d wall=%.1fs violations=%d known=%d inconclusive=%d\n",
 		cfg.Property, *tier, states, transitions, obligations, trivial, queries[0], queries[1], queries[2], solverMs/1000, replayOK, replays, time.Since(t0).Seconds(), totalViol, len(dedupe(knownLines)), len(inconclusive))
+	pprof.StopCPUProfile()
 	if totalViol > 0 {
 		os.Exit(1)
 	}
